@@ -649,7 +649,7 @@ func specLines(f *ast.File, fset *token.FileSet) []struct {
 	return out
 }
 
-var clauseKeywords = []string{"assume-ensures", "stable", "iterates-requires", "iterates", "assume-result", "seq", "ghost-var", "requires-captured", "on-entry", "use", "requires", "ensures", "modifies", "loop", "inline", "pure", "trusted", "ghost-param", "on-call", "on-send", "at", "decreases",
+var clauseKeywords = []string{"assume-ensures", "stable", "iterates-requires", "iterates", "assume-result", "seq", "ghost-var", "requires-captured", "on-entry", "use", "requires", "ensures", "modifies", "loop", "inline", "pure", "trusted", "ghost-param", "after-call", "on-call", "on-send", "at", "decreases",
 	"props", "let", "assert", "guards", "invariant", "ghost", "field", "holds", "unit", "recv", "call"}
 
 func stripComment(s string) string {
@@ -952,7 +952,7 @@ func parseContractFile(pkg string, path string, f *ast.File, fset *token.FileSet
 				continue
 			}
 			curEvent.Uses = append(curEvent.Uses, namedClause(it.line, rest))
-		case "on-call", "on-send", "at", "on-entry":
+		case "on-call", "on-send", "at", "on-entry", "after-call":
 			if cur == nil {
 				errf(it.line, "%s outside func", kw)
 				continue
@@ -1066,7 +1066,7 @@ func parseContractFile(pkg string, path string, f *ast.File, fset *token.FileSet
 		default:
 			errf(it.line, "unknown clause %q", kw)
 		}
-		if kw != "on-call" && kw != "on-send" && kw != "at" && kw != "on-entry" && kw != "use" && kw != "assume-result" && kw != "assert" && kw != "ghost" && kw != "requires" {
+		if kw != "on-call" && kw != "after-call" && kw != "on-send" && kw != "at" && kw != "on-entry" && kw != "use" && kw != "assume-result" && kw != "assert" && kw != "ghost" && kw != "requires" {
 			curEvent = nil
 		}
 	}
